@@ -863,6 +863,8 @@ def argconv(types, values):
         if t.endswith('[::1]'):
             if isinstance(v, CArray):
                 out.append(v)
+            elif hasattr(v, 'to_cells'):
+                out.append(CArray(base, data=v.to_cells()))
             elif isinstance(v, SymBytes):
                 out.append(CArray(base, data=[c.v for c in v.cells]))
             elif isinstance(v, (bytes, bytearray, memoryview)):
